@@ -225,6 +225,7 @@ func checkC11(c *Ctx) {
 	cfgJSON, _ := json.Marshal(base.AutoVar)
 	c.CovSet("command_config", strings.TrimSpace(string(cfgJSON)))
 	if rejected > 0 {
-		c.Fatal("%d well-formed AutoVar programs were rejected by the compiler", rejected)
+		o := rejectedExample.o
+		c.Violate(Violation{What: fmt.Sprintf("%d well-formed AutoVar programs were rejected by the compiler (first: %s)", rejected, rejectedExample.err), Source: rejectedExample.src, Opts: &o})
 	}
 }
